@@ -52,12 +52,12 @@ pub fn run_history(seed: u64) -> Outcome {
     let mut rng = Rng::new(seed);
     let mut ops: Vec<String> = Vec::new();
     // --- destination
-    let start: u64 = *rng.pick(&[0u64, 0, 1, 7, 4095, 4096, 1_000_000, 12]);
+    let start: u64 = if cfg!(miri) { *rng.pick(&[0u64, 1, 7, 300]) } else { *rng.pick(&[0u64, 0, 1, 7, 4095, 4096, 1_000_000, 12]) };
     let init_len = match rng.below(4) {
         0 => 0usize,
         1 => rng.usize_below(start as usize + 1),
         2 => start as usize + rng.usize_below(64),
-        _ => start as usize + 20_000 + rng.usize_below(100),
+        _ => start as usize + if cfg!(miri) { 600 } else { 20_000 } + rng.usize_below(100),
     };
     let init_len = if start == 1_000_000 && rng.chance(1, 2) { rng.usize_below(200) } else { init_len };
     let initial = rng.bytes(init_len);
@@ -114,7 +114,7 @@ pub fn run_history(seed: u64) -> Outcome {
         return Outcome { ops, calls: 0, descriptor: seed, failure: Some(format!("directory position {dir_pos} != buffer length {pre} at creation")), fault_hit: false };
     }
     ops.push(format!("new(pre={pre}, entries={count})"));
-    let nops = rng.range(1, 40);
+    let nops = rng.range(1, if cfg!(miri) { 12 } else { 40 });
     let mut failure = None;
     let mut kinds = Vec::new();
     let mut fault_hit = false;
@@ -128,7 +128,7 @@ pub fn run_history(seed: u64) -> Outcome {
         let res: Result<(), String>;
         if op < 4 {
             // grow
-            let n = *rng.pick(&[1usize, 2, 4, 12, 13, 100, 4096, 5000]);
+            let n = if cfg!(miri) { *rng.pick(&[1usize, 2, 4, 12, 13, 100]) } else { *rng.pick(&[1usize, 2, 4, 12, 13, 100, 4096, 5000]) };
             let mut n = 1 + rng.usize_below(n);
             // now and then a really large growth (size-dependent paths: chunking, 32-bit casts)
             if rng.chance(1, 120) && mode == Mode::Plain && fault == Fault::None {
